@@ -51,7 +51,8 @@ def reader_rules(ctx, R):
     # M3-M6 describe ONE way of reading exactly (slice the buffer, ask for the remaining count, search from the start ...): they are
     # sufficient, not necessary.  When the evaluation followed the readers through every delivery they do not report any more.
     ctx._m7_ok = bool(mev is not None and mev[0] == "ok")
-    prev = ctx.demote(("M3", "M4", "M5", "M6"), "the evaluation of the readers (M7)") if ctx._m7_ok else None
+    prev = ctx.demote(("M3", "M4", "M5", "M6"), "the evaluation of the readers (M7)",
+                      keep_keys=("size-group-not-digits", "timeout-not-error", "delimiter-not-crlf")) if ctx._m7_ok else None
     try:
         _reader_rules_structural(ctx, R)
     except AnalysisError as e:
@@ -878,6 +879,7 @@ def block_invariant(ctx, blk, size_param):
 
 
 # ================================================================================ M7: the readers evaluated over segmentations
+_PROTO_LIKE = b'a\r\n\r\nOK "x"\r\n{2}\r\nb\r\n'
 STREAMS = [
     [b"OK\r\n"],
     [b'NO (QUOTA/MAXSIZE) "too big"\r\n'],
@@ -892,6 +894,9 @@ STREAMS = [
     [b'NO "Quota d\xc3\xa9pass\xc3\xa9"\r\n', b"OK\r\n"],
     [b'"caf\xc3\xa9"\r\n"\xe2\x82\xac" ACTIVE\r\nOK "\xc3\xa9t\xc3\xa9"\r\n'],   # multi-byte characters: a cut may fall inside one
     [b"{8}\r\n# \xc3\xa9\xc3\xa0\r\n\r\nOK\r\n"],
+    # a literal whose content looks like protocol (a blank line, a status line, a size line): only its announced size says where it ends
+    [b"{%d}\r\n" % len(_PROTO_LIKE) + _PROTO_LIKE + b"\r\nOK\r\n"],
+    [b'BYE "too many connections"\r\n', b"OK\r\n"],    # the BYE line is consumed like any other: what follows it is not BYE again
 ]
 
 
@@ -911,6 +916,8 @@ EXPECTED = [
     [(b"NO", b'"Quota d\xc3\xa9pass\xc3\xa9"', b""), (b"OK", None, b"")],
     [(b"OK", b'"\xc3\xa9t\xc3\xa9"', b'"caf\xc3\xa9"\r\n"\xe2\x82\xac" ACTIVE\r\n')],
     [(b"OK", None, b"# \xc3\xa9\xc3\xa0\r\n")],
+    [(b"OK", None, _PROTO_LIKE)],
+    [("raise", "Error"), (b"OK", None, b"")],
 ]
 
 
@@ -1026,6 +1033,9 @@ def reader_eval(ctx, R, thorough=False):
                 if it.unknowns and p.value not in ("Error", "UnicodeDecodeError"):
                     return None  # an exception after a call the interpreter could not follow proves nothing
                 results.append(("raise", p.value))
+                if p.value == "Error" and _reply is not stream[-1] and stream[0].startswith(b"BYE"):
+                    env = {k: x for k, x in p.env.items() if k.startswith(sn + ".") or k.startswith("@")}
+                    continue
                 break
             v = p.value
             v = v.v if isinstance(v, fd.Const) else tuple(x.v if isinstance(x, fd.Const) else None for x in v.items) if isinstance(v, fd.Tup) else None
@@ -1051,6 +1061,16 @@ def reader_eval(ctx, R, thorough=False):
         L = len(whole)
         step = 1 if (thorough or L <= 24) else 2
         schedules = [[c] for c in range(1, L, step)] + [list(range(1, L))] + [[c, c + 1] for c in range(1, L - 1, 3)] + [[c, L - 2] for c in range(2, L - 3, 5)]
+        # the stream stops short (the peer went silent): the reply that is cut must end in Error, never in a result
+        for short in (L - 1, L - 3):
+            if short > 0:
+                t_ = deliver([whole[:short]] if len(stream) == 1 else [b"".join(stream[:-1]), stream[-1][:short - len(b"".join(stream[:-1]))]], [])
+                if t_ is None:
+                    return None
+                n += 1
+                if not (t_ and t_[-1] == ("raise", "Error")) or len(t_) != len(stream):
+                    return ("bad", "the reply stream %r cut after %d of its %d octets (then silence) is read as %r: the incomplete reply must end in "
+                            "Error" % (whole, short, L, t_))
         runs = [(c_, None) for c_ in schedules]
         if rs_key is not None:
             runs += [([], 7), ([], 3), ([L // 2], 5), ([L // 3, 2 * L // 3], 16)]
